@@ -17,7 +17,8 @@
               C15_pool_add_size_atomic_refuted, C15_pool_add_ok_not_failure_free_refuted (ConstPool::add is atomic only in its
               constants, not in its size / gap bookkeeping - by design of the code, see design/C15.md) *)
 From Coq Require Import ZArith List Bool Lia Permutation.
-From Verif Require Import OomTxn.OracleModel OomTxn.OracleProofs.
+From Verif Require Jit.JitModel Jit.JitProofs.
+From Verif Require Import OomTxn.OracleModel OomTxn.OracleProofs OomTxn.JitJointModel OomTxn.JitJointProofs.
 From VerifGen Require Import C15Tables.
 Import ListNotations.
 Local Open Scope Z_scope.
@@ -339,3 +340,49 @@ Theorem C15_builder_const_pool_partial_refuted :
   exists ok h b, let '(r, _, b', _) := builder_step_gen ok false (BConstPool 0) h b 0%nat in r = Oom /\ bld_list b' <> bld_list b.
 Proof. exact const_pool_partial_refuted. Qed.
 Print Assumptions C15_builder_const_pool_partial_refuted.
+
+(* ------------------------------------------------------------------------------------------------------------- String *)
+
+(* core/string.cpp String (append, assign, append_chars, assign_chars, clear, reset, truncate) for EVERY heap oracle: never
+   "invalid"; kOutOfMemory leaves characters, capacity and storage kind exactly as they were; a success has the oracle-free effect
+   str_spec; size <= capacity (and the small-buffer capacity) is kept; at most one malloc per operation. *)
+Theorem C15_str_step_atomic :
+  forall (okh : nat -> bool) (op : sop) (s : str) (k : nat) (r : result) (s' : str) (k' : nat),
+    sop_wf op -> str_inv s -> str_step okh op s k = (r, s', k') ->
+    (k <= k' <= S k)%nat /\ r <> Invalid /\ str_inv s' /\ (r = Oom -> s' = s) /\ (r = Ok -> st_chars s' = str_spec op (st_chars s)).
+Proof. exact str_step_atomic. Qed.
+Print Assumptions C15_str_step_atomic.
+
+Example C15_str_step_atomic_satisfiable : str_inv str_empty /\ sop_wf (SAppendChars 40).
+Proof. unfold str_inv, slen, sop_wf, str_empty, sso_capacity. cbn. repeat split; intros; lia. Qed.
+
+(* The executable validator applied to the allocator state dumped at the end of every REAL register-allocator pass run (for every
+   fault position of the compiler workloads) is sound: a state it accepts satisfies the invariant of the home-slot model; together
+   with C15_ra_rewrite_safe: if additionally ra_rewrite of the dumped state is Ok, no register marked "stack used" lacks its slot. *)
+Theorem C15_ra_check_sound : forall s : rastack, ra_check s = true -> ra_inv s.
+Proof. exact ra_check_sound. Qed.
+Print Assumptions C15_ra_check_sound.
+
+(* ------------------------------------------------------------------- JitAllocator::alloc: C09's span model x C15's block creation *)
+
+(* C09's allocator model (Verif.Jit: spans, bit vectors, pools, statistics) composed with C15's view / block-record model: when
+   alloc needs a new block it is created by JitAllocator_new_block under the two oracles.  For every pair of oracles both
+   invariants are kept; when the allocation answers kOutOfMemory because the block could not be created, the allocator's live
+   spans and statistics AND the live views and block records are exactly what they were; otherwise the allocator state is C09's
+   `alloc` and the views grew by exactly the views of at most one new block. *)
+Theorem C15_jit_alloc_joint :
+  forall (okv okh : nat -> bool) (dual : bool) (c : JitModel.config) (st : JitModel.state) (s : vms) (size : Z) (kv kh : nat)
+         (st' : JitModel.state) (r : JitModel.result) (s' : vms) (kv' kh' : nat),
+    JitProofs.cfg_ok c -> JitProofs.ginv c st -> vms_inv s ->
+    jit_alloc okv okh dual c st s size kv kh = (st', r, s', kv', kh') ->
+    JitProofs.ginv c st' /\ vms_inv s' /\
+    ((st', r) = JitModel.alloc c st size /\
+       (vs_views s' = vs_views s /\ vs_heap s' = vs_heap s \/
+        exists ids, vs_views s' = vs_views s ++ ids /\ length ids = (if dual then 2 else 1)%nat /\ vs_heap s' = S (vs_heap s))
+     \/
+     (r = JitModel.RAlloc JitModel.OutOfMemory 0 0 0 /\
+        JitProofs.all_live (JitModel.blocks st') = JitProofs.all_live (JitModel.blocks st) /\
+        JitModel.statistics c st' = JitModel.statistics c st /\
+        vs_views s' = vs_views s /\ vs_heap s' = vs_heap s)).
+Proof. exact jit_alloc_joint. Qed.
+Print Assumptions C15_jit_alloc_joint.
